@@ -309,3 +309,41 @@ Print Assumptions C10_average_price_spec.
 Print Assumptions C10_average_price_all_history.
 Print Assumptions C10_average_price_accuracy.
 Print Assumptions C10_sold_percentage_over_shown_fractions.
+
+(** ------------------------------------------------------------------------------------------------------------
+    No date window makes the computation fail (Proofs/ComputeTotal.v).  On the matcher's output for a history built by the
+    constructors ([matched_history]: [build h = Ok t], IN rows in sheet order, events of one instant in one local year, the
+    schedule covers every event year with distinct years, [fractions_of gen_always_repush sched t = Ok fs]) [compute] returns a
+    result for EVERY from-date / to-date when negative balances are allowed, and otherwise fails only with the negative-balance
+    error of C08 (the balance replay is the one stage whose outcome depends on the to-date). *)
+From RP2V Require Import Model.TotalSpec Proofs.ComputeTotal Proofs.L4Examples Proofs.ComputeTotalExamples.
+
+Theorem C10_every_window_computes : forall sched h t fs, matched_history sched h t fs ->
+  forall period from_day to_day exs hos, exists cd, compute period from_day to_day true exs hos t fs = Ok cd.
+Proof. exact compute_total_allow. Qed.
+
+Theorem C10_window_failure_is_the_balance_guard : forall sched h t fs, matched_history sched h t fs ->
+  forall period from_day to_day allow exs hos e,
+  compute period from_day to_day allow exs hos t fs = Err e -> e = ENegBalance /\ allow = false.
+Proof. exact compute_only_error. Qed.
+
+(** the average price is defined for every to-date when the acquisitions are positive, and is 0 (no division) when the to-date
+    lies before the first acquisition *)
+Theorem C10_average_price_defined : forall to_day ins, (forall a, In a ins -> 0 < i_crypto_in a) -> exists d, price_per_unit to_day ins = Ok d.
+Proof. exact price_total. Qed.
+Theorem C10_average_price_before_first_acquisition : forall to_day ins,
+  (forall a, In a ins -> to_day < local_day (i_ts a)) -> price_per_unit to_day ins = Ok dzero.
+Proof. exact price_before_first_acquisition. Qed.
+
+(** non-vacuity: history A is a [matched_history]; with the to-date 2016-07-18 (before its first acquisition) the run succeeds,
+    shows nothing and reports the average price 0 *)
+Theorem C10_every_window_nonvacuous :
+  matched_history schedA hA tA fsA /\
+  exists cd, compute 365 0 17000 false exsA hosA tA fsA = Ok cd /\ cd_price cd = dzero /\ cd_gls cd = [] /\ cd_balances cd = [] /\ cd_yearly cd = [].
+Proof. exact (conj hA_matched to_date_before_first_acquisition). Qed.
+
+Print Assumptions C10_every_window_computes.
+Print Assumptions C10_window_failure_is_the_balance_guard.
+Print Assumptions C10_average_price_defined.
+Print Assumptions C10_average_price_before_first_acquisition.
+Print Assumptions C10_every_window_nonvacuous.
